@@ -22,6 +22,7 @@ var (
 	errInjDial     = errors.New("c18: injected dial failure")
 	errInjHs       = errors.New("c18: injected handshake read failure")
 	errLocalClosed = errors.New("c18: incarnation closed locally")
+	errInjClose    = errors.New("c18: injected close failure (the connection is closed nevertheless)")
 )
 
 const (
@@ -76,6 +77,7 @@ type world struct {
 	budget       int           // redial budget of the transport under test
 	consec       int           // consecutive failed redial attempts
 	closeLatency time.Duration // set before the first dial, never changed
+	closeFails   bool          // set before the first dial: Close reports an error after closing
 	writeLatency time.Duration // set before the first dial, never changed
 	onExhaust    func()        // called (no locks held) when consec reaches budget
 }
@@ -383,9 +385,15 @@ func (c *inc) CloseWithStatus(transport.CloseStatus) error {
 		if d := c.w.closeLatency; d > 0 {
 			time.Sleep(d) // a closing handshake takes time; the connection refuses writes meanwhile (real clock only)
 		}
+		if c.w.closeFails {
+			return errInjClose
+		}
 		return nil
 	}
 	c.mu.Unlock()
+	if c.w.closeFails {
+		return errInjClose
+	}
 	return nil
 }
 
